@@ -44,15 +44,16 @@ Theorem wf_no_unsupported_deserialize_field : forall OP tm R s allfs e f buf,
 Proof. exact (fun OP tm R s allfs e f buf HR H => nu_deserialize_field OP tm R HR s allfs e f buf H). Qed.
 Print Assumptions wf_no_unsupported_deserialize_field.
 
-(* whole codecs, serialize + size: for a well-formed schema, ANY value, ANY type name, ANY nesting fuel -- never Unsupported.
-   Premise: the sort-key view does not answer Unsupported (it does only for a comparer member holding a value of the wrong shape).
-   Partial: the full statement also covers dec / decf (deserialize and factory); for those only the member-level theorem above is proved:
-     forall OP tm, wf_schema tm = true -> forall fuel t b, dec OP tm fuel t b <> Crash "Unsupported" /\ decf OP tm fuel t b <> Crash "Unsupported". *)
-Theorem wf_no_unsupported_partial : forall OP tm, wf_schema tm = true ->
+(* whole codecs -- serialize, size, deserialize, factory deserialize: for a well-formed schema, ANY value, ANY buffer, ANY type name, ANY
+   nesting fuel -- never Unsupported.  Premise: the sort-key view does not answer Unsupported (it does only for a comparer member holding a value
+   of the wrong shape, which no admissible value has). *)
+Theorem wf_no_unsupported : forall OP tm, wf_schema tm = true ->
   (forall fuel t v, key OP tm fuel t v <> Crash "Unsupported") ->
-  forall fuel t v, enc OP tm fuel t v <> Crash "Unsupported" /\ size OP tm fuel t v <> Crash "Unsupported".
-Proof. exact enc_size_no_unsupported_all. Qed.
-Print Assumptions wf_no_unsupported_partial.
+  forall fuel t v b,
+    enc OP tm fuel t v <> Crash "Unsupported" /\ size OP tm fuel t v <> Crash "Unsupported"
+    /\ dec OP tm fuel t b <> Crash "Unsupported" /\ decf OP tm fuel t b <> Crash "Unsupported".
+Proof. exact codecs_no_unsupported_all. Qed.
+Print Assumptions wf_no_unsupported.
 
 (* non-vacuity: outside wf_schema the Unsupported outcome is reachable (array of 16-bit ints), and wf_schema rejects that schema *)
 Example wf_excludes_something :
